@@ -8,7 +8,9 @@ seed-dependent histories of finished / failed / pending trials) and checks every
 only knows the SPECIFICATION of each domain ("randint", lo, hi) ... and never calls the library for the expected value.
 
 What the statement leaves open, and how the reference treats it (no false alarms):
-  * round-off: float bounds and the values of finite ranges are compared with a relative tolerance of 1e-12 / 1e-9;
+  * round-off: the bounds of float domains are EXACT (lower <= v <= upper, Float.is_valid: decoding clips to the bounds,
+    exp(log(upper)) > upper is outside); the values of finite ranges, which the reference computes by its own
+    arithmetic from (lower, upper, size), are compared with a relative tolerance of 1e-9;
     the geometric mid-point with 1e-9; DEHB encodes initial points to [0,1] and back, so "given" float values are
     compared with 1e-9 there.  Everything else is exact.
   * ties: where the mid-point rule hits x.5 (integers), lies between two entries (ordinals with an even number of
@@ -90,7 +92,6 @@ C_PBT_TYPE = "pbt-explored-value-has-the-type-of-its-domain"
 CLAUSES = [C_KEYS, C_CONST, C_TYPE, C_DOM, C_INIT, C_MID, C_CAT0, C_DEDUP, C_REP_FIN, C_REP_PEND, C_REP_FAIL, C_FAIL_DUP, C_NONE, C_GRID, C_GRID_COLL, C_CRASH, C_CRASH_DEHB, C_CRASH_DEHB_FAIL, C_PBT_DOM, C_PBT_TYPE]
 
 MAX_VIOL = 5
-RTOL_BOUND = 1e-12
 RTOL_VAL = 1e-9
 GIVE_UP_DRAWS = 100  # MAX_RETRIES of sample_random_configuration (known finding F6, excluded exactly)
 
@@ -239,9 +240,9 @@ class _Ref:
         if self.fam == "float":
             if not _is_num(v):
                 return False
-            tol_lo = RTOL_BOUND * max(1.0, abs(self.lo))
-            tol_hi = RTOL_BOUND * max(1.0, abs(self.hi))
-            return self.lo - tol_lo <= v <= self.hi + tol_hi
+            # exact at the bounds: "inside the domain" (Float.is_valid).  Values a searcher decodes from an encoded vector
+            # are clipped to the bounds by from_ndarray, samplers draw from the half-open interval, PBT clips.
+            return self.lo <= v <= self.hi
         if self.fam == "int":
             return _is_num(v) and float(v) == math.floor(float(v)) and self.lo <= v <= self.hi
         if self.fam == "cat":
@@ -784,7 +785,7 @@ class _MultiFidAd(_FifoAd):
 # --------------------------------------------------------------------------------------------------------------
 # the generic sequence runner (random / grid / BO / hyperband / DEHB)
 # --------------------------------------------------------------------------------------------------------------
-def _run_sequence(ctx, sc, space, ad, raw_p2e, promise, steps, rng, fates=(0.5, 0.2, 0.3), approx_given=False, grid=None, blocks_failed=False, const_latitude=(), none_judged=True, crash_clause=C_CRASH, forced_fail=()):
+def _run_sequence(ctx, sc, space, ad, raw_p2e, promise, steps, rng, fates=(0.5, 0.2, 0.3), approx_given=False, grid=None, blocks_failed=False, const_latitude=(), none_judged=True, crash_clause=C_CRASH, forced_fail=(), max_nones=2, metric_fn=None):
     """promise: the searcher promises not to repeat itself.  fates = P(finish), P(fail), P(stay pending)
     grid: None or dict(num_samples=..., colliding=bool) -> end-of-run enumeration clause"""
     ctx.scenario(sc)
@@ -819,7 +820,7 @@ def _run_sequence(ctx, sc, space, ad, raw_p2e, promise, steps, rng, fates=(0.5, 
                     ctx.excluded_f6 += 1  # known finding F6: gave up after MAX_RETRIES rejected draws
                 else:
                     ctx.check(C_NONE, used_up, scenario=sc, step=step, space_size=None if finite_all is None else len(finite_all), distinct_suggested=len(seen), draws_in_this_call=ad.draws, missing=sorted(finite_all - seen, key=repr)[:5] if finite_all is not None else "space is infinite")
-            if nones >= 2:
+            if nones >= max_nones:
                 break
             continue
         ctx.suggestions += 1
@@ -873,7 +874,8 @@ def _run_sequence(ctx, sc, space, ad, raw_p2e, promise, steps, rng, fates=(0.5, 
             todo.append((older[int(rng.randint(len(older)))], "finished" if rng.rand() < 0.6 else "failed"))
         for h, kind in todo:
             if kind == "finished":
-                ad.finish(h["id"], h["cfg"], float(np.round(rng.uniform(0.0, 1.0), 3)))
+                noise = float(np.round(rng.uniform(0.0, 1.0), 3))
+                ad.finish(h["id"], h["cfg"], noise if metric_fn is None else float(metric_fn(h["cfg"])) + 0.01 * noise)
             else:
                 ad.fail(h["id"])
             n_status[h["status"]] -= 1
@@ -1216,6 +1218,90 @@ def _fam_dehb(ctx, E, spaces, rng, lib_seed, steps, n_p2e):
     run(space, "empty-list", [], "trials 9, 10, 11 (a whole rung) fail", (1.0, 0.0, 0.0), C_CRASH_DEHB_FAIL, forced=(9, 10, 11))
 
 
+def _fam_dehb_finite(ctx, E, spaces, rng, lib_seeds, n_p2e):
+    """DEHB's own sampler on small finite spaces, run into the nearly used-up regime: when all 50 retries (25 DE offspring +
+    25 uniform draws) hit suggested configurations the scheduler gives up (None: the F6-like give-up, NOT judged here);
+    a new trial with an earlier configuration is a repeat and is judged.  The give-up reports its slot as failed, so a
+    crash here is the known discrepancy (D3) and goes to that clause."""
+    for space in spaces:
+        size = space.size()
+        for label, raw in _p2e_variants(space, rng, n_p2e):
+            try:
+                _ref_initial(raw, space)
+            except _Ambiguous:
+                continue
+            for ls in lib_seeds:
+                sc = _scen("dehb[random_encoded,finite]", space, label, raw, {"max_resource_level": 9, "grace_period": 1, "reduction_factor": 3, "history": "all trials finish"}, ls)
+                sched = E.DEHB(space.build(), searcher="random_encoded", search_options={"debug_log": False}, mode="min", metric="loss", max_resource_level=9, grace_period=1, reduction_factor=3, resource_attr="epoch", random_seed=ls, points_to_evaluate=_copy_p2e(raw))
+                ad = _MultiFidAd(sched, E, max_t=9, can_pend=False)
+                _run_sequence(ctx, sc, space, ad, raw, promise=True, steps=size + 25, rng=rng, fates=(1.0, 0.0, 0.0), approx_given=True, none_judged=False, max_nones=10, crash_clause=C_CRASH_DEHB_FAIL, metric_fn=_smooth_metric(space, +1))
+
+
+def _smooth_metric(space, direction):
+    """loss to minimise: log-scaled floats are pulled to their upper (direction=+1) / lower (-1) bound, the rest to an
+    interior point"""
+
+    def f(cfg):
+        tot = 0.0
+        for k in space.hp:
+            r = space.refs[k]
+            v = cfg.get(k)
+            if not _is_num(v):
+                continue
+            if r.fam == "float" and (r.log or r.rev) and r.lo < r.hi:
+                g = (lambda x: -math.log(1.0 - x)) if r.rev else math.log
+                tot += -direction * (g(min(max(float(v), r.lo), r.hi)) - g(r.lo)) / (g(r.hi) - g(r.lo))
+            elif r.fam in ("float", "int") and r.lo < r.hi:
+                tot += ((float(v) - r.lo) / (r.hi - r.lo) - 0.3) ** 2
+            else:
+                tot += 0.01 * float(v)
+        return tot
+
+    return f
+
+
+# log / reverse-log scaled float domains whose bounds do not survive exp(log(.)) (0.1, 0.01, 1e-3, 1e-4, 1e-5, 5.0, 1000):
+# a searcher that decodes an encoded vector sitting on the boundary of the cube must still answer a member of the domain
+_LOGBOUND_SPACES = [
+    ("logb-lr-wd", {"lr": ("loguniform", 1e-4, 0.1), "wd": ("uniform", 0.0, 1.0), "epochs": ("const", 9)}),
+    ("logb-two-logs", {"a": ("loguniform", 5.0, 1000.0), "b": ("loguniform", 1e-6, 1e-3)}),
+    ("logb-mixed", {"lr": ("loguniform", 1e-5, 0.01), "mom": ("reverseloguniform", 0.9, 0.999), "n": ("randint", 0, 3), "act": ("choice", ("relu", "tanh"))}),
+    ("logb-single", {"lr": ("loguniform", 1e-3, 0.1)}),
+]
+
+
+def _fam_logbounds(ctx, E, rng, lib_seed, quick):
+    bo_steps = 8 if quick else 12
+    for si, (name, specs) in enumerate(_LOGBOUND_SPACES):
+        space = _Space(name, specs, E)
+        hi, lo = _full(space, rng, "high"), _full(space, rng, "low")
+        first = space.hp[0]
+        variants = [("on-upper-bounds", [hi]), ("on-lower-bounds", [lo]), ("upper-lower-one-on-bound", [hi, lo, {first: hi[first]}])]
+        # DEHB encodes and decodes the initial points
+        for label, raw in variants:
+            sc = _scen("dehb[random_encoded]", space, label, raw, {"max_resource_level": 9, "grace_period": 1, "reduction_factor": 3, "history": "all trials finish"}, lib_seed)
+            sched = E.DEHB(space.build(), searcher="random_encoded", search_options={"debug_log": False}, mode="min", metric="loss", max_resource_level=9, grace_period=1, reduction_factor=3, resource_attr="epoch", random_seed=lib_seed, points_to_evaluate=_copy_p2e(raw))
+            ad = _MultiFidAd(sched, E, max_t=9, can_pend=False)
+            _run_sequence(ctx, sc, space, ad, raw, promise=True, steps=25, rng=rng, fates=(1.0, 0.0, 0.0), approx_given=True, metric_fn=_smooth_metric(space, +1))
+        # GP-BO: the objective improves towards a bound, the local optimiser (default L-BFGS-B settings) ends on the cube boundary
+        for direction, dlabel in ((+1, "optimum on the upper bounds"), (-1, "optimum on the lower bounds")):
+            label, raw = variants[(si + (0 if direction > 0 else 1)) % 3] if not quick else variants[2]
+            # opt_* only bound the fitting of the GP hyperparameters; the L-BFGS-B run on the acquisition function is the default one
+            so = {"num_init_random": 3, "debug_log": False, "opt_nstarts": 1, "opt_maxiter": 8, "num_init_candidates": 60}
+            sc = _scen("fifo[bayesopt]", space, label, raw, {"search_options": so, "objective": dlabel}, lib_seed)
+            sched = E.FIFO(space.build(), searcher="bayesopt", metric="loss", mode="min", points_to_evaluate=_copy_p2e(raw), random_seed=lib_seed, search_options=dict(so))
+            ad = _FifoAd(sched, E)
+            _run_sequence(ctx, sc, space, ad, raw, promise=True, steps=len(raw) + 3 + bo_steps, rng=rng, fates=(1.0, 0.0, 0.0), metric_fn=_smooth_metric(space, direction))
+            if quick and (si != 0 or direction < 0):
+                continue
+            for searcher in ("bayesopt",) if quick else ("bayesopt", "hypertune"):
+                so = {"num_init_random": 3, "debug_log": False, "opt_nstarts": 1, "opt_maxiter": 5, "num_init_candidates": 40}
+                sc = _scen("hyperband[%s,promotion]" % searcher, space, label, raw, {"type": "promotion", "max_t": 9, "grace_period": 1, "reduction_factor": 3, "search_options": so, "objective": dlabel}, lib_seed)
+                sched = E.Hyperband(space.build(), searcher=searcher, metric="loss", mode="min", resource_attr="epoch", max_t=9, grace_period=1, reduction_factor=3, type="promotion", points_to_evaluate=_copy_p2e(raw), random_seed=lib_seed, search_options=dict(so))
+                ad = _MultiFidAd(sched, E, max_t=9)
+                _run_sequence(ctx, sc, space, ad, raw, promise=True, steps=len(raw) + 3 + bo_steps, rng=rng, fates=(1.0, 0.0, 0.0), metric_fn=_smooth_metric(space, direction))
+
+
 # ---- PBT ------------------------------------------------------------------------------------------------------
 _PBT_SPACES = [
     ("pbt-negatives", {"x": ("uniform", -1.0, 1.0), "shift": ("uniform", -3.0, -0.5), "n": ("randint", -10, -2), "num_layers": ("const", 7)}),
@@ -1376,6 +1462,11 @@ def monitor_suggestions(tier="quick", seed=0):
     dehb_nn = [_Space("dehb-nn-int", {"width": ("ordinal", (1, 10, 100), "nn-log"), "x": ("uniform", 0.0, 1.0)}, E)]
     dehb_spaces = dehb_nn + [s for s in bo_mixed[:1] + rnd_mixed[: (6 if quick else 20)] + inf_singles[:: (3 if quick else 1)] if s.surely_infinite()]
     _fam_dehb(ctx, E, dehb_spaces, rng, lib_seed + 8, steps=B["dehb_steps"], n_p2e=3 if quick else 6)
+    # DEHB on small finite spaces (nearly used-up regime); log-scaled floats with initial points / optima on the bounds
+    dehb_fin = [_Space("dehb-5x5", {"a": ("randint", 0, 4), "b": ("randint", 0, 4), "k": ("const", 9)}, E), _Space("dehb-logint-fin", {"a": ("lograndint", 1, 5), "f": ("finrange", -1.0, 1.0, 5, False)}, E), _Space("dehb-int-cat", {"n": ("randint", -2, 2), "act": ("choice", ("relu", "tanh", "gelu")), "c": ("const", "x")}, E)]
+    dehb_fin += [s for s in rnd_finite if s.size() is not None and 12 <= s.size() <= 40 and not any(r.fam == "cat" and r.ordkind in ("nn", "nn-log") and len(r.cats) > 1 and isinstance(r.cats[0], int) for r in s.refs.values())][: (2 if quick else 8)]
+    _fam_dehb_finite(ctx, E, dehb_fin, rng, [lib_seed + 20 + i for i in range(4 if quick else 8)], n_p2e=2 if quick else 4)
+    _fam_logbounds(ctx, E, rng, lib_seed + 10, quick)
     # PBT
     _fam_pbt(ctx, E, rng, lib_seed + 9, rounds=B["pbt_rounds"], tier=tier)
 
@@ -1386,7 +1477,9 @@ def monitor_suggestions(tier="quick", seed=0):
         "%d scenarios / %d suggestions (%s). Bounds: %d enumerated + %d random finite spaces (<= 3 hyperparameters, <= 2 constants, <= %d configurations, run until 'nothing left' "
         "answered twice) and %d random mixed spaces (+1-2 infinite / quantised domains), 13 one-dimensional infinite spaces; grids <= %d points; up to %d points_to_evaluate variants "
         "per space (None, [], [{}], full, partial, repeated, bounds, spelled-out mid-points, with constant key); every trial finished / failed / left pending at random, older pending ones resolved later; "
-        "BO: %d model-based steps after the initial points, run to the end only in spaces <= 8 configurations; Hyperband max_t=9 rungs 1,3,9; DEHB %d suggestions per scenario (infinite spaces only); "
+        "BO: %d model-based steps after the initial points, run to the end only in spaces <= 8 configurations; Hyperband max_t=9 rungs 1,3,9; DEHB %d suggestions per scenario in infinite spaces, "
+        "|space| + 25 steps / up to 10 give-ups in 3 enumerated + some random finite spaces (12..40 configurations, repeats judged, give-up not judged); 4 spaces with log-scaled floats whose bounds "
+        "do not survive exp(log(.)): initial points exactly on the bounds (DEHB, GP-BO, GP multi-fidelity) and objectives with the optimum on the bounds (default L-BFGS-B settings); "
         "PBT: 6 spaces x 5 top configurations x %d resample probabilities x 3 policies (star / chain / random), %d rounds; %d 'None after >= 100 rejected draws' answers not judged (known F6)"
         % (
             ctx.scenarios,
